@@ -33,6 +33,14 @@ pub struct GenCfg {
     pub locals_budget: usize,
     /// plain strings only (no backslash / newline / control characters)
     pub plain_strings: bool,
+    /// allow backslashes in string literals (their meaning is unspecified; C06 only)
+    pub backslash_strings: bool,
+    /// field names from the lexical pool (Lua reserved words that Sylt allows, underscores, long names)
+    pub lexical_names: bool,
+    /// weight of the dedicated closure / re-entrancy scenarios (0 = off)
+    pub scenario_weight: u32,
+    /// long straight-line bodies: up to this many extra cheap statements appended to function bodies
+    pub long_bodies: usize,
     /// boundary literals
     pub extreme_literals: bool,
 }
@@ -63,6 +71,10 @@ impl GenCfg {
             max_fn_exprs: 7,
             locals_budget: 110,
             plain_strings: true,
+            backslash_strings: false,
+            lexical_names: false,
+            scenario_weight: 2,
+            long_bodies: 0,
             extreme_literals: true,
         }
     }
@@ -110,6 +122,7 @@ pub struct Gen<'t, 'a, 'b> {
     fn_exprs: usize,
     /// generating the base case of a recursive function: no call of an enclosing recursive function
     in_base_case: bool,
+    splice_next: bool,
 }
 
 const INT_POOL: &[i64] = &[0, 1, 2, 3, 5, 7, 10, -1, -2, 42, 100, 255, 1000, -17];
@@ -129,11 +142,17 @@ const FLOAT_EXTREME: &[&str] = &[
     "1e15", "1e16", "9007199254740993.0", "1e308", "1e-7", "123456.789", "0.30000000000000004", "1e-320",
     "99999999999999.5", "1e+2", "5e-324", "1e100", "0.000001", "4503599627370496.5",
 ];
+pub const LEXICAL_FIELD_NAMES: &[&str] = &[
+    "elseif", "for", "function", "goto", "local", "repeat", "return", "then", "until", "while", "_", "__", "_x", "x_",
+    "a_very_long_field_name_that_goes_on_and_on_1234567890", "Upper", "f1", "nil_", "type", "print", "string", "table",
+    "math", "V1", "L2", "self_", "__index", "__eq", "_type",
+];
+
 const STR_POOL: &[&str] = &["", "a", "b", "abc", "hello", "x y", "Z", "0", "été", "字", "a,b", "(q)", "nil", "true"];
 
 impl<'t, 'a, 'b> Gen<'t, 'a, 'b> {
     pub fn new(t: &'t mut Tape<'a, 'b>, cfg: GenCfg) -> Self {
-        Gen { t, p: Program::default(), cfg, scope: Vec::new(), uid: 0, rec_stack: Vec::new(), fn_depth: 0, budget: 0, fn_exprs: 0, in_base_case: false }
+        Gen { t, p: Program::default(), cfg, scope: Vec::new(), uid: 0, rec_stack: Vec::new(), fn_depth: 0, budget: 0, fn_exprs: 0, in_base_case: false, splice_next: false }
     }
 
     fn fresh(&mut self, prefix: &str, ty: Ty, kind: VarKind, mutable: bool) -> VarId {
@@ -203,7 +222,37 @@ impl<'t, 'a, 'b> Gen<'t, 'a, 'b> {
         }
     }
     fn str_lit(&mut self) -> String {
-        self.t.pick(STR_POOL).to_string()
+        if self.cfg.plain_strings || self.t.chance(1, 2) {
+            return self.t.pick(STR_POOL).to_string();
+        }
+        // arbitrary characters except the double quote
+        let n = self.t.below(12);
+        let mut s = String::new();
+        for _ in 0..n {
+            let c = match self.t.below(14) {
+                0 => '\n',
+                1 => '\r',
+                2 => '\t',
+                3 => '\'',
+                4 => {
+                    if self.cfg.backslash_strings {
+                        '\\'
+                    } else {
+                        '/'
+                    }
+                }
+                5 => char::from_u32(1 + self.t.below(30) as u32).unwrap_or('x'),
+                6 => 'é',
+                7 => '字',
+                8 => '😀',
+                9 => '%',
+                10 => ' ',
+                11 => ']',
+                _ => (b'a' + self.t.below(26) as u8) as char,
+            };
+            s.push(c);
+        }
+        s
     }
 
     pub fn literal(&mut self, ty: &Ty, depth: usize) -> Expr {
@@ -277,6 +326,8 @@ impl<'t, 'a, 'b> Gen<'t, 'a, 'b> {
     fn vars_of(&self, ty: &Ty, ctx: &FnCtx) -> Vec<SVar> {
         self.scope
             .iter()
+            // `self` has no type while its blob literal is being checked: only field reads/writes use it
+            .filter(|v| self.p.var(v.id).kind != VarKind::SelfVar)
             .filter(|v| &v.ty == ty && (!ctx.pure || !v.mutable))
             .cloned()
             .collect()
@@ -926,9 +977,45 @@ impl<'t, 'a, 'b> Gen<'t, 'a, 'b> {
         if ret == Ty::Void {
             self.voidify(&mut body);
         }
+        if self.cfg.long_bodies > 0 && self.fn_depth == 1 && self.t.chance(1, 6) {
+            // long straight-line bodies (every definition and every read is a Lua local)
+            let n = self.t.below(self.cfg.long_bodies + 1);
+            for k in 0..n {
+                let v = self.fresh("w", Ty::Int, VarKind::Local, false);
+                body.stmts.push(Stmt::Def { var: v, mutable: false, value: int(k as i64) });
+            }
+        }
         if ret != Ty::Void {
             let dd = if self.fn_depth >= 3 { 1 } else { self.cfg.expr_depth.min(3) };
-            let v = self.expr_c(&ret, dd, &mut ctx);
+            let holder = ctx.rec.is_some() && ctx.rec_calls < 2 && self.t.chance(self.cfg.reentrant_bias.min(3), 4);
+            let v = if holder {
+                // a value that is held while a re-entrant call of this very function runs
+                let held = match self.t.below(3) {
+                    0 => self.if_expr(&ret, 2, &mut ctx),
+                    1 => self.case_expr(&ret, 2, &mut ctx).unwrap_or_else(|| self.if_expr(&ret, 2, &mut ctx)),
+                    _ => self.expr_c(&ret, 2, &mut ctx),
+                };
+                let fsv = self.scope.iter().find(|v| Some(v.id) == ctx.rec.map(|r| r.0)).cloned();
+                match fsv {
+                    Some(fsv) => {
+                        let call = self.call_to(&fsv, 2, &mut ctx);
+                        let (a, b) = if self.t.bool() { (held, call) } else { (call, held) };
+                        match &ret {
+                            Ty::Int => bin(*self.t.pick(&[BinOp::Add, BinOp::Sub, BinOp::Mul]), Ty::Int, a, b),
+                            Ty::Float => bin(*self.t.pick(&[BinOp::Add, BinOp::Sub, BinOp::Mul]), Ty::Float, a, b),
+                            Ty::Str => bin(BinOp::Add, Ty::Str, a, b),
+                            other => {
+                                let tt = Ty::Tuple(vec![other.clone(), other.clone()]);
+                                let idx = self.t.below(2);
+                                e(other.clone(), EKind::TupleIdx(Box::new(e(tt, EKind::Tuple(vec![a, b]))), idx))
+                            }
+                        }
+                    }
+                    None => held,
+                }
+            } else {
+                self.expr_c(&ret, dd, &mut ctx)
+            };
             body.value = Some(Box::new(v));
         }
         self.fn_depth -= 1;
@@ -996,6 +1083,197 @@ impl<'t, 'a, 'b> Gen<'t, 'a, 'b> {
         }
     }
 
+    fn local(&mut self, prefix: &str, ty: Ty, mutable: bool, assignable: bool) -> VarId {
+        let v = self.fresh(prefix, ty.clone(), VarKind::Local, mutable);
+        self.scope.push(SVar { id: v, ty, mutable, assignable, rec: false, global: false });
+        v
+    }
+
+    /// Hand-shaped closure scenarios with generated parts (C10): closures created per loop iteration and
+    /// called after the loop, sibling closures sharing a captured variable, closure factories.
+    fn scenario(&mut self, ctx: &mut FnCtx) -> Vec<Stmt> {
+        // no further function-typed expressions in this declaration (type checker blow-up, see max_fn_exprs)
+        self.fn_exprs = self.cfg.max_fn_exprs;
+        self.cost(ctx, 12);
+        let mut out = Vec::new();
+        let fn_int = Ty::Fn(vec![], Box::new(Ty::Int), false);
+        match self.t.below(4) {
+            0 => {
+                // closures made in a loop, called afterwards
+                let k = self.t.range(1, 3);
+                let seed = self.expr_c(&Ty::Int, 1, ctx);
+                let base = self.local("v", Ty::Int, false, false);
+                out.push(Stmt::Def { var: base, mutable: false, value: seed });
+                let zero = FnDef { params: vec![], ret: Ty::Int, body: Block { stmts: vec![], value: Some(Box::new(int(0))) }, pure: false };
+                let fs = self.local("v", Ty::List(Box::new(fn_int.clone())), false, false);
+                out.push(Stmt::Def {
+                    var: fs,
+                    mutable: false,
+                    value: e(Ty::List(Box::new(fn_int.clone())), EKind::List(vec![e(fn_int.clone(), EKind::Lambda(Box::new(zero)))])),
+                });
+                let i = self.local("i", Ty::Int, true, false);
+                out.push(Stmt::Def { var: i, mutable: true, value: int(0) });
+                let scope = self.scope.len();
+                let j = self.local("v", Ty::Int, false, false);
+                let m = self.local("v", Ty::Int, true, false);
+                let mul = self.t.range(1, 4);
+                let mut body = Block::default();
+                body.stmts.push(Stmt::Def { var: j, mutable: false, value: bin(BinOp::Mul, Ty::Int, var(&self.p, i), int(mul)) });
+                body.stmts.push(Stmt::Def { var: m, mutable: true, value: bin(BinOp::Add, Ty::Int, var(&self.p, j), var(&self.p, base)) });
+                // the closure mutates its own per-iteration variable and reads per-iteration + outer ones
+                let extra = self.leaf(&Ty::Int, ctx);
+                let clo = FnDef {
+                    params: vec![],
+                    ret: Ty::Int,
+                    body: Block {
+                        stmts: vec![Stmt::Assign { target: LValue::Var(m), op: AssignOp::Add, value: int(1) }],
+                        value: Some(Box::new(bin(
+                            BinOp::Add,
+                            Ty::Int,
+                            bin(BinOp::Add, Ty::Int, var(&self.p, m), var(&self.p, j)),
+                            extra,
+                        ))),
+                    },
+                    pure: false,
+                };
+                body.stmts.push(Stmt::Expr(e(
+                    Ty::Void,
+                    EKind::Std(StdFn::ListPush, vec![var(&self.p, fs), e(fn_int.clone(), EKind::Lambda(Box::new(clo)))]),
+                )));
+                body.stmts.push(Stmt::Assign { target: LValue::Var(i), op: AssignOp::Add, value: int(1) });
+                self.scope.truncate(scope);
+                out.push(Stmt::Loop { cond: Some(bin(BinOp::Lt, Ty::Bool, var(&self.p, i), int(k))), body });
+                // call every closure twice, after the loop
+                let f = self.fresh("p", fn_int.clone(), VarKind::Param, false);
+                let calls = FnDef {
+                    params: vec![f],
+                    ret: Ty::Void,
+                    body: Block {
+                        stmts: vec![
+                            print_stmt(e(Ty::Int, EKind::Call(Box::new(var(&self.p, f)), vec![]))),
+                            print_stmt(e(Ty::Int, EKind::Call(Box::new(var(&self.p, f)), vec![]))),
+                        ],
+                        value: None,
+                    },
+                    pure: false,
+                };
+                let fty = Ty::Fn(vec![fn_int.clone()], Box::new(Ty::Void), false);
+                out.push(Stmt::Expr(e(Ty::Void, EKind::Std(StdFn::ListForEach, vec![var(&self.p, fs), e(fty, EKind::Lambda(Box::new(calls)))]))));
+            }
+            1 => {
+                // sibling closures sharing one captured variable
+                let init = self.expr_c(&Ty::Int, 1, ctx);
+                let c = self.local("v", Ty::Int, true, true);
+                out.push(Stmt::Def { var: c, mutable: true, value: init });
+                let d = self.fresh("p", Ty::Int, VarKind::Param, false);
+                let inc = FnDef {
+                    params: vec![d],
+                    ret: Ty::Void,
+                    body: Block { stmts: vec![Stmt::Assign { target: LValue::Var(c), op: AssignOp::Add, value: var(&self.p, d) }], value: None },
+                    pure: false,
+                };
+                let inc_ty = Ty::Fn(vec![Ty::Int], Box::new(Ty::Void), false);
+                let incv = self.local("h", inc_ty.clone(), false, false);
+                out.push(Stmt::Def { var: incv, mutable: false, value: e(inc_ty, EKind::Lambda(Box::new(inc))) });
+                let get = FnDef { params: vec![], ret: Ty::Int, body: Block { stmts: vec![], value: Some(Box::new(var(&self.p, c))) }, pure: false };
+                let getv = self.local("h", fn_int.clone(), false, false);
+                out.push(Stmt::Def { var: getv, mutable: false, value: e(fn_int.clone(), EKind::Lambda(Box::new(get))) });
+                let n = self.t.below(3) + 1;
+                for _ in 0..n {
+                    let a = self.expr_c(&Ty::Int, 1, ctx);
+                    out.push(Stmt::Expr(e(Ty::Void, EKind::Call(Box::new(var(&self.p, incv)), vec![a]))));
+                    out.push(print_stmt(e(Ty::Int, EKind::Call(Box::new(var(&self.p, getv)), vec![]))));
+                }
+                let a = self.expr_c(&Ty::Int, 1, ctx);
+                out.push(Stmt::Assign { target: LValue::Var(c), op: AssignOp::Set, value: a });
+                out.push(print_stmt(e(Ty::Int, EKind::Call(Box::new(var(&self.p, getv)), vec![]))));
+            }
+            2 => {
+                // closure factory: every call of mk makes an independent counter
+                let s0 = self.fresh("p", Ty::Int, VarKind::Param, false);
+                let c = self.fresh("v", Ty::Int, VarKind::Local, true);
+                let step = self.t.range(1, 5);
+                let inner = FnDef {
+                    params: vec![],
+                    ret: Ty::Int,
+                    body: Block {
+                        stmts: vec![Stmt::Assign { target: LValue::Var(c), op: AssignOp::Add, value: int(step) }],
+                        value: Some(Box::new(var(&self.p, c))),
+                    },
+                    pure: false,
+                };
+                let mk = FnDef {
+                    params: vec![s0],
+                    ret: fn_int.clone(),
+                    body: Block {
+                        stmts: vec![Stmt::Def { var: c, mutable: true, value: var(&self.p, s0) }],
+                        value: Some(Box::new(e(fn_int.clone(), EKind::Lambda(Box::new(inner))))),
+                    },
+                    pure: false,
+                };
+                let mk_ty = Ty::Fn(vec![Ty::Int], Box::new(fn_int.clone()), false);
+                let mkv = self.local("h", mk_ty.clone(), false, false);
+                out.push(Stmt::Def { var: mkv, mutable: false, value: e(mk_ty, EKind::Lambda(Box::new(mk))) });
+                let a0 = self.expr_c(&Ty::Int, 1, ctx);
+                let a = self.local("h", fn_int.clone(), false, false);
+                out.push(Stmt::Def { var: a, mutable: false, value: e(fn_int.clone(), EKind::Call(Box::new(var(&self.p, mkv)), vec![a0])) });
+                let b0 = self.expr_c(&Ty::Int, 1, ctx);
+                let b = self.local("h", fn_int.clone(), false, false);
+                out.push(Stmt::Def { var: b, mutable: false, value: e(fn_int.clone(), EKind::Call(Box::new(var(&self.p, mkv)), vec![b0])) });
+                let n = self.t.below(4) + 2;
+                for _ in 0..n {
+                    let who = if self.t.bool() { a } else { b };
+                    out.push(print_stmt(e(Ty::Int, EKind::Call(Box::new(var(&self.p, who)), vec![]))));
+                }
+            }
+            _ => {
+                // a case binding captured by a closure that outlives the arm
+                let fs_ty = Ty::List(Box::new(fn_int.clone()));
+                let zero = FnDef { params: vec![], ret: Ty::Int, body: Block { stmts: vec![], value: Some(Box::new(int(7))) }, pure: false };
+                let fs = self.local("v", fs_ty.clone(), false, false);
+                out.push(Stmt::Def { var: fs, mutable: false, value: e(fs_ty, EKind::List(vec![e(fn_int.clone(), EKind::Lambda(Box::new(zero)))])) });
+                let n = self.t.below(3) + 1;
+                for _ in 0..n {
+                    let payload = self.expr_c(&Ty::Int, 1, ctx);
+                    let scr = e(Ty::Maybe(Box::new(Ty::Int)), EKind::MaybeJust(Box::new(payload)));
+                    let bv = self.fresh("b", Ty::Int, VarKind::CaseBind, false);
+                    let k = self.t.range(1, 9);
+                    let clo = FnDef {
+                        params: vec![],
+                        ret: Ty::Int,
+                        body: Block { stmts: vec![], value: Some(Box::new(bin(BinOp::Mul, Ty::Int, var(&self.p, bv), int(k)))) },
+                        pure: false,
+                    };
+                    let arm = Arm {
+                        variant: "Just".into(),
+                        bind: Some(bv),
+                        body: Block {
+                            stmts: vec![
+                                Stmt::Expr(e(Ty::Void, EKind::Std(StdFn::ListPush, vec![var(&self.p, fs), e(fn_int.clone(), EKind::Lambda(Box::new(clo)))]))),
+                                Stmt::Def { var: self.fresh("u", Ty::Int, VarKind::Local, false), mutable: false, value: int(0) },
+                            ],
+                            value: None,
+                        },
+                    };
+                    out.push(Stmt::Expr(e(Ty::Void, EKind::Case { scrut: Box::new(scr), arms: vec![arm], default: Some(Block::default()) })));
+                }
+                let f = self.fresh("p", fn_int.clone(), VarKind::Param, false);
+                let calls = FnDef {
+                    params: vec![f],
+                    ret: Ty::Void,
+                    body: Block { stmts: vec![print_stmt(e(Ty::Int, EKind::Call(Box::new(var(&self.p, f)), vec![])))], value: None },
+                    pure: false,
+                };
+                let fty = Ty::Fn(vec![fn_int.clone()], Box::new(Ty::Void), false);
+                out.push(Stmt::Expr(e(Ty::Void, EKind::Std(StdFn::ListForEach, vec![var(&self.p, fs), e(fty, EKind::Lambda(Box::new(calls)))]))));
+            }
+        }
+        // the statements are spliced into the enclosing block (set last: nested generation above may
+        // itself go through `stmt`)
+        self.splice_next = true;
+        out
+    }
+
     fn print_of(&mut self, v: &SVar, ctx: &mut FnCtx) -> Stmt {
         self.cost(ctx, 2);
         print_stmt(var(&self.p, v.id))
@@ -1005,6 +1283,10 @@ impl<'t, 'a, 'b> Gen<'t, 'a, 'b> {
     fn stmt(&mut self, ctx: &mut FnCtx, first: bool) -> Vec<Stmt> {
         match self.stmt1(ctx, first) {
             Some(Stmt::Block(b)) if b.value.is_none() && b.stmts.len() == 2 && matches!(b.stmts[1], Stmt::Loop { .. }) => b.stmts,
+            Some(Stmt::Block(b)) if self.splice_next => {
+                self.splice_next = false;
+                b.stmts
+            }
             Some(Stmt::Block(_)) if first && self.cfg.avoid_leading_do_block => Vec::new(),
             Some(s) => vec![s],
             None => Vec::new(),
@@ -1030,6 +1312,8 @@ impl<'t, 'a, 'b> Gen<'t, 'a, 'b> {
             if !pure && self.cfg.lists { 5 } else { 0 },               // 10 list push / for_each
             if self.cfg.closures && ctx.block_depth > 0 && self.fn_depth < 3 && self.fn_room() { 6 } else { 0 }, // 11 local function definition
             1,                                                         // 12 unused expression statement
+            if !pure && ctx.block_depth > 0 && self.cfg.closures && self.fn_depth < 2 && self.fn_exprs <= 1 { self.cfg.scenario_weight } else { 0 }, // 13 closure scenario
+            if !self.cfg.avoid_stmt_after_ret { 2 } else { 0 },       // 14 ret in the middle of a block
         ];
         match self.t.weighted(&w) {
             0 => {
@@ -1191,6 +1475,19 @@ impl<'t, 'a, 'b> Gen<'t, 'a, 'b> {
                 self.cost(ctx, 1);
                 Some(Stmt::Def { var: v, mutable: false, value: e(fty, EKind::Lambda(Box::new(def))) })
             }
+            13 => {
+                let ss = self.scenario(ctx);
+                Some(Stmt::Block(Block { stmts: ss, value: None }))
+            }
+            14 => {
+                if ctx.ret == Ty::Void {
+                    Some(Stmt::Ret(None))
+                } else {
+                    let r = ctx.ret.clone();
+                    let v = self.expr_c(&r, 2, ctx);
+                    Some(Stmt::Ret(Some(v)))
+                }
+            }
             _ => {
                 // an expression whose value is unused
                 let t = self.printable_ty();
@@ -1274,7 +1571,17 @@ impl<'t, 'a, 'b> Gen<'t, 'a, 'b> {
                 Ty::Blob(_) | Ty::Enum(_) => Ty::Int,
                 t => t,
             };
-            fields.push(FieldDecl { name: format!("f{}", (b'a' + i as u8) as char), ty });
+            let name = if self.cfg.lexical_names && self.t.chance(1, 2) {
+                let n = self.t.pick(LEXICAL_FIELD_NAMES).to_string();
+                if fields.iter().any(|f: &FieldDecl| f.name == n) {
+                    format!("f{}", (b'a' + i as u8) as char)
+                } else {
+                    n
+                }
+            } else {
+                format!("f{}", (b'a' + i as u8) as char)
+            };
+            fields.push(FieldDecl { name, ty });
         }
         if self.cfg.methods && self.t.chance(1, 2) {
             let np = self.t.below(2);
